@@ -125,7 +125,9 @@ def run_collection(ns, ctor, ro_text, texts, strict, tmp, store, order=None, all
             store.objects = {}
             keys = []
             for k, d in enumerate(docs):
-                key = f'pre/f{k:03d}.mos.xml'
+                # key names sort in the REVERSE of the supply order: ordering by key name instead of by
+                # message ID becomes visible
+                key = f'pre/{899 - k:03d}-f.mos.xml'
                 store.put(bucket, key, d)
                 keys.append(key)
             store.put(bucket, 'pre/ignored.txt', 'not a mos file')
